@@ -39,14 +39,15 @@ def ri3(facts, rep):
     ext = {}
     for bb, t in b.calls():
         info = call_info(t)
-        if info and info['fn'].endswith('Extend::extend'):
+        if info and (info['fn'].endswith('Extend::extend') or info['fn'].rsplit('::', 1)[-1] in (
+                'resize', 'resize_with', 'extend_from_slice', 'extend_from_within')):
             sp = ri.arg_self_ref(t['args'][0], 3)
             if sp:
                 ext[sp] = bb
     for bid, bp in sorted(bufs.items()):
         key = 'Ukkonen::find_all_end|refilled|self.%s' % bid
         if tuple(bp) in ext:
-            rep.ok(rule, key, b.loc(ext[tuple(bp)]), 'extend after clear')
+            rep.ok(rule, key, b.loc(ext[tuple(bp)]), 'extend / resize after clear')
         else:
             rep.bad(rule, key, '%s:%s' % (b.file, b.line), 'column self.%s is cleared but not refilled' % bid)
     # Matches::next never clears / replaces the columns (it only reads and writes cells)
@@ -97,23 +98,28 @@ def ef2(facts, rep):
 
 
 PO5_AUDIT = {
-    'pattern_matching::myers::helpers::word_size|overflow-mul|mem::size_of(),8': 'size_of of a machine word type (<= 16) times 8',
-    'pattern_matching::myers::helpers::ceil_div|remzero|arg1': 'callers pass y = word_size::<T>() >= 8',
-    'pattern_matching::myers::helpers::ceil_div|overflow-add|Div(arg1,arg2),1': 'x / y + 1 <= x for y >= 2 (word size >= 8)',
-    'pattern_matching::myers::long::States::<T>::new|overflow-sub|helpers::ceil_div(arg1,x0),1':
+    'pattern_matching::myers::helpers::word_size|overflow-mul|mem::size_of(),8':
+        'size_of of a machine word type (<= 16) times 8',
+    'pattern_matching::myers::helpers::ceil_div|remzero|arg1':
+        'callers pass y = word_size::<T>() >= 8',
+    'pattern_matching::myers::helpers::ceil_div|overflow-add|Div(arg1,arg2),1':
+        'x / y + 1 <= x for y >= 2 (word size >= 8)',
+    'pattern_matching::myers::long::States::<T>::new|overflow-sub|helpers::ceil_div(arg1,helpers::word_size()),1':
         'm >= 1 is asserted by Myers::new (non-empty pattern), so ceil_div(m, w) >= 1',
-    'pattern_matching::myers::long::States::<T>::new|remzero|arg1': 'w = word_size::<T>() >= 8',
-    'pattern_matching::myers::long::States::<T>::add_state|unwrap|unwrap(ToPrimitive>::to_usize(num::wrapping_add(num::wrapping_add(x0,x1),arg2)))<usize>':
+    'pattern_matching::myers::long::States::<T>::new|remzero|arg1':
+        'w = word_size::<T>() >= 8',
+    'pattern_matching::myers::long::States::<T>::add_state|unwrap|unwrap(ToPrimitive>::to_usize(num::wrapping_add(num::wrapping_add(Option::unwrap_or(Option::map(slice::last(Deref>::deref(arg1.states)),add_state::{closure#0}{}),0),x0),arg2)))<usize>':
         'usize::to_usize is the identity and always Some',
     'pattern_matching::myers::long::States::<T>::step|overflow-sub|Vec::len(arg1.states),1':
         'States::new adds at least one block (min_blocks >= 1) and step truncates to last_block + 1 >= 1',
     'pattern_matching::myers::long::States::<T>::step|index|index(arg1.states,x0)<std::vec::Vec<pattern_matching::myers::myers_impl::State<T, usize>>>':
         'last_block < states.len(): it starts at len - 1, is incremented only together with add_state and decremented only while > 0',
-    'pattern_matching::myers::long::States::<T>::step|overflow-sub|x0,x1':
+    'pattern_matching::myers::long::States::<T>::step|overflow-sub|Index<I>>::index(arg1.states,x0).dist,x1':
         'isize difference of a block distance (<= pattern length + text position) and a carry in {-1,0,1}',
     'pattern_matching::myers::long::States::<T>::step|bounds|idx=Add(x0,1).0,len=PtrMetadata(arg3)':
         'guarded by last_block < self.max_block and peq has max_block + 1 entries (one per block)',
-    'pattern_matching::myers::long::States::<T>::step|overflow_neg|x0': 'carry is in {-1, 0, 1}',
+    'pattern_matching::myers::long::States::<T>::step|overflow_neg|x0':
+        'carry is in {-1, 0, 1}',
     'pattern_matching::myers::long::States::<T>::step|index|index_mut(arg1.states,x0)<std::vec::Vec<pattern_matching::myers::myers_impl::State<T, usize>>>':
         'add_state just pushed block last_block',
     'pattern_matching::myers::long::States::<T>::step|bounds|idx=x0,len=PtrMetadata(arg3)':
@@ -134,11 +140,11 @@ def po5(facts, rep):
                                                                'pattern_matching::myers::helpers::ceil_div',
                                                                'pattern_matching::myers::helpers::word_size'))]
     rep.floor(rule, 'bodies', len(bodies), 5)
-    for b in bodies:
+    from .po_known import KNOWN
+    for b, nb, ia, obs in eng_po.scan(facts, bodies, KNOWN):
         rep.analysed_body(b)
-        ia = eng_po.Intervals(b, facts).run()
         seen = {}
-        for o in eng_po.obligations(b, ia):
+        for o in obs:
             total += 1
             key = '%s|%s|%s' % (b.path, o['kind'], o['ops'])
             seen[key] = seen.get(key, 0) + 1
